@@ -13,6 +13,7 @@ import (
 	mintertypes "github.com/chain4energy/c4e-chain/x/cfeminter/types"
 	sdk "github.com/cosmos/cosmos-sdk/types"
 	banktypes "github.com/cosmos/cosmos-sdk/x/bank/types"
+	"github.com/cosmos/cosmos-sdk/x/feegrant"
 	abci "github.com/tendermint/tendermint/abci/types"
 	"pgregory.net/rapid"
 )
@@ -193,6 +194,20 @@ func TestC10(t *testing.T) {
 				c.note("bank send of a user to the address of module account %s: ok=%v", name, res.OK())
 				if res.OK() {
 					c.classes["user_transfer_to_module_address_accepted"] = true
+				}
+			},
+			"user_fee_grant_to_module_address": func(t *rapid.T) {
+				// a fee allowance granted to the address of one of those module accounts (x/feegrant creates an
+				// account for a grantee that has none)
+				name := append(append([]string{}, distrModulePool...), distrtypes.DistributorMainAccount)[rapid.IntRange(0, len(distrModulePool)).Draw(t, "module")]
+				m, err := feegrant.NewMsgGrantAllowance(&feegrant.BasicAllowance{}, KeyAcc(4).Addr, ModuleAddr(name))
+				if err != nil {
+					panic(err)
+				}
+				res := RunMsg(c.w.App, c.ctx.WithBlockTime(nsTime(c.now)).WithBlockHeight(c.height), m)
+				c.note("fee allowance of a user for the address of module account %s: ok=%v", name, res.OK())
+				if res.OK() {
+					c.classes["fee_allowance_for_module_address_accepted"] = true
 				}
 			},
 			"update_minter": func(t *rapid.T) {
